@@ -8,7 +8,7 @@ import gen
 from extract import Undecided
 
 VERIF = gen.VERIF
-BUILD = os.path.join(VERIF, 'build')
+BUILD = os.path.join(os.environ.get('VERIF_SCRATCH') or VERIF, 'build')
 
 PROBE = '''
 // ======== vacuity probe: must FAIL (if it verifies, the trusted prelude is contradictory) ========
